@@ -172,8 +172,17 @@ package log
 //@ ghost var gsegm uint64
 //@ ghost var gsegsort int
 //@ pure SegPos(d string, i uint64) int = ginv(gsegsort, gpos(gsegm, lfile(d, i)))
-//@ axiom [T-std.glob-log] forall(d, p, gmatch(pjoin(d, "*.log"), p) == (p == lfile(d, lidx(p)))) && forall(d, gpatok(pjoin(d, "*.log")))
-//@ axiom [T-std.log-name-parses] forall(d, i, gparse(gtrim(gbase(lfile(d, i)), ".log")) == i && lidx(lfile(d, i)) == i)
+// T-std.glob-log / T-std.log-name-parses, stated as the postcondition of Glob at its call in segments (a view) rather than
+// as global axioms: as axioms they take part in every obligation of the module and form a matching loop with
+// lfile / lidx that made an unrelated obligation undecided (9.3)
+//@ view path/filepath.Glob at log.segments params(pattern)
+//@   ensures gpatok(pattern) ==> result1 == nil
+//@   ensures result1 == nil ==> forall(k, 0 <= k && k < len(result0) ==> fs[result0[k]] && gmatch(pattern, result0[k]))
+//@   ensures result1 == nil ==> forall(j, k, 0 <= j && j < k && k < len(result0) ==> result0[j] != result0[k])
+//@   ensures result1 == nil ==> forall(p, fs[p] && gmatch(pattern, p) ==> 0 <= gpos(arrof(result0), p) && gpos(arrof(result0), p) < len(result0) && result0[gpos(arrof(result0), p)] == p)
+//@   ensures len(result0) < 4611686018427387904 && base(result0) == 0 && (len(result0) > 0 ==> isfresh(arrof(result0)))
+//@   ensures [T-std.glob-log] forall(d, p, gmatch(pjoin(d, "*.log"), p) == (p == lfile(d, lidx(p)))) && forall(d, gpatok(pjoin(d, "*.log")))
+//@   ensures [T-std.log-name-parses] forall(d, i, gparse(gtrim(gbase(lfile(d, i)), ".log")) == i && lidx(lfile(d, i)) == i)
 // sort.Slice (T-std) sorts by the less function it is given; that function is segments$1 below, proved to be "<"
 //@ view sort.Slice at log.segments
 //@   modifies contents(as(x, []uint64)), sortgen
